@@ -91,14 +91,16 @@ def data_candidates(c):
                 d = dict(c)
                 d['n'] = m
                 d['cols'] = [col[:m] for col in c['cols']]
-                d['times'] = c['times'][:m]
+                if 'times' in c:
+                    d['times'] = c['times'][:m]
                 yield d
                 d = dict(c)
                 d['n'] = m
                 d['cols'] = [col[n - m:] for col in c['cols']]
-                d['times'] = c['times'][n - m:]
+                if 'times' in c:
+                    d['times'] = c['times'][n - m:]
                 yield d
-    if c['times'] != list(range(n)):
+    if 'times' in c and c['times'] != list(range(n)):
         d = dict(c)
         d['times'] = list(range(n))
         yield d
